@@ -18,7 +18,8 @@ other `Props/Pipeline*.lean` files this one has no property id of its own; each 
   included: everything follow mode writes is what the batch program prints over the same lines, same status),
   `follow_screen_is_batch_output` (aggregate statement without LIMIT and join, text / JSON format: the k-th delivered
   line either refreshes the screen with exactly the output of the batch program over the first k lines, or — WHERE or
-  the admission rule rejects it — leaves everything as it is and the batch output over k lines is the one over k−1).
+  the admission rule rejects it — leaves everything as it is and the batch output over k lines is the one over k−1;
+  `shown_line_screen_is_batch_output`: the last screen after a shown line IS that batch output).
   Side conditions, exactly (`PlainLine`): the batch reader must read the delivered lines as the same texts — valid
   UTF-8 (follow mode does NOT end on an invalid line and reports nothing: the line's text is `from_utf8_lossy`, an
   external fact; batch mode ends with `FailReadFile`) and no `\r` before the `\n` (follow mode keeps it as content).
@@ -285,6 +286,28 @@ theorem follow_screen_is_batch_output (F : Facts) (defsText queryText : List Cha
   · rw [if_neg hcov] at hf
     simp [followAnswerOf] at hf
 
+/-- **… in the words of the sentence**: when the k-th delivered line is shown, the screen follow mode shows after it — the
+last screen of what it has written — is exactly the output of the batch program over the first k lines; in particular
+the final screen of a follow run whose last delivered line is shown is the batch output over all delivered lines -/
+theorem shown_line_screen_is_batch_output (F : Facts) (defsText queryText : List Char) (fmt : Print.Format) (single : Bool)
+    (pre : List (List Nat)) (l : List Nat) (hplain : ∀ x ∈ pre ++ [l], PlainLine x) (hfmt : headerless fmt = true)
+    (defs : LStmt) (tables : List Table) (a : AggStmt) (fromTable : String) (file : Option String) (t : Table)
+    (hc : classesCover F defsText = true ∧ classesCover F queryText = true)
+    (hd : parseText (lexOracles F) (regexValidFn F) defsText = .stmt defs)
+    (hp : (createPatterns defs).all (fun re => ((Utf8.decode re).bind (regexValidOf F)).isSome) = true)
+    (hq : parseText (lexOracles F) (regexValidFn F) queryText = .stmt (.aggregate a fromTable file none))
+    (ht : addTables defs = some tables) (hg : getTable tables fromTable = some t) (hlim : a.limit = none)
+    (hex : KeysExact (groupKeysOf F.eval a (followEnvs t.info ((pre ++ [l]).map (extractedLine F t.defn)))))
+    (w : List TermItem) (hf : followLines F defsText queryText fmt (pre ++ [l]) none = .ran none w)
+    (n : Nat) (ls : List Print.Bytes)
+    (hb : runText F defsText queryText fmt single [wire (pre ++ [l])] = .records none n ls)
+    (hs : lineShown F.eval { stmt := .aggregate a, table := t.info, join := none } a (extractedLine F t.defn l)) :
+    (screens w).getLast? = some ls := by
+  obtain ⟨w₀, _, h1, _⟩ := follow_screen_is_batch_output F defsText queryText fmt single pre l hplain hfmt defs tables a fromTable
+    file t hc hd hp hq ht hg hlim hex w hf n ls hb
+  rw [h1 hs]
+  exact (screens_last_after_clear w₀ ls).1
+
 /-! ### C19: an interrupt -/
 
 /-- **An interrupted follow run is the run over the lines delivered before the interrupt** (C19 at program level): the
@@ -490,6 +513,21 @@ example : (match followText exFacts exDefs "select t.k from t inner join u::'f' 
     | _ => false) = true := by decide +kernel
 example : ranOf (followText exFacts exDefs "select k from nosuch".toList .text true (strBytes "a;1\n") [.poll 8191, .poll 8191]) =
     some (some .tableNotFound, []) := by decide +kernel
+
+/-- a table that admits every line (`(.*)`), `SELECT input`, without `--head`: the start-up content — also its unterminated
+tail `ta` — is skipped; the printed records are exactly the complete lines appended after the start offset (`il` completes
+nothing: it IS the first line), each once, in order, the empty line included, the tail `rest` never -/
+def exAllFacts : Facts :=
+  { regexValid := [("(.*)".toList, true)]
+    lines := [(strBytes "il", { captures := [(strBytes "(.*)", some [some (strBytes "il"), some (strBytes "il")])] }),
+              (strBytes "ab", { captures := [(strBytes "(.*)", some [some (strBytes "ab"), some (strBytes "ab")])] }),
+              (strBytes "", { captures := [(strBytes "(.*)", some [some (strBytes ""), some (strBytes "")])] }),
+              (strBytes "c d", { captures := [(strBytes "(.*)", some [some (strBytes "c d"), some (strBytes "c d")])] })] }
+example : ranOf (followText exAllFacts "CREATE TABLE t(line = '(.*)', line[1] => x TEXT);".toList "select input from t".toList .text false
+    (strBytes "old\nta") [.append (strBytes "il\nab\n"), .poll 8191, .append (strBytes "\nc d\nrest"), .poll 8191, .poll 8191,
+      .poll 8191, .poll 8191, .poll 8191]) =
+    some (none, [.line (strBytes "'il'"), .line (strBytes "'ab'"), .line (strBytes "''"), .line (strBytes "'c d'")]) := by
+  decide +kernel
 
 /-- hypotheses of `follow_select_prints_batch_output` / `follow_screen_is_batch_output`: plain lines -/
 example : ∀ l ∈ [strBytes "a;1", strBytes "zzz", strBytes "b;2"], PlainLine l := by
